@@ -67,6 +67,7 @@ func H_C15_keys(t *verifrt.T) {
 	var got [5]int
 	var err error
 	names := vkANames
+	mapPath := true
 	if t.Choice("struct", 2) == 0 {
 		var v vkA
 		err = Unmarshal(doc, &v)
@@ -76,6 +77,7 @@ func H_C15_keys(t *verifrt.T) {
 		err = Unmarshal(doc, &v)
 		got = [5]int{v.F0, v.F1, v.F2, v.F3, v.F4}
 		names = vkBNames
+		mapPath = false
 	}
 	t.ObserveBool("ok", err == nil)
 	// only keys that are one well-formed literal spanning the whole body are in scope
@@ -93,7 +95,7 @@ func H_C15_keys(t *verifrt.T) {
 	if wi < 0 {
 		wi = 0
 	}
-	kf := verifrt.And(want >= 0, string(tok.Value) != names[wi], nothing)
+	kf := verifrt.And(mapPath, want >= 0, string(tok.Value) != names[wi], nothing)
 	if want >= 0 {
 		t.Known("D23-case-insensitive-match-missing-on-map-path", kf)
 	}
